@@ -162,6 +162,15 @@ func labels(c Case) []string {
 		return append(l, "discarded: "+L.Why)
 	}
 	l = append(l, fmt.Sprintf("fragments:%d", min(len(want), 4)), fmt.Sprintf("sites:%d", min(len(L.Sites), 7)))
+	for i := range want {
+		for j := i + 1; j < len(want); j++ {
+			if want[i].Forward == want[j].Forward && want[i].Interior == want[j].Interior && want[i].Reverse == want[j].Reverse {
+				l = append(l, "two identical fragments expected")
+				i = len(want)
+				break
+			}
+		}
+	}
 	if len(L.Sites) > len(L.Cuts) {
 		l = append(l, "linear: a cut region leaves the sequence")
 	}
@@ -267,6 +276,12 @@ func gen(t *rapid.T) Case {
 		}
 	}
 	pieces = append(pieces, filler(t, "filler_end", gap(nsites), e))
+	// one layout in six with two or three sites is laid out twice in a row (a tandem duplication), so
+	// that a digestion releases byte-identical fragments: they count as often as they occur
+	if (nsites == 2 || nsites == 3) && rapid.IntRange(0, 5).Draw(t, "tandem") == 0 {
+		pieces = append(pieces, pieces...)
+		nsites *= 2
+	}
 	// one layout in four is stretched to a chosen total length (the top of the range, an edge size or
 	// any length to 3000) by lengthening one gap, so that long parts occur with sites anywhere in them
 	if rapid.IntRange(0, 3).Draw(t, "stretch") == 0 {
@@ -285,7 +300,7 @@ func gen(t *rapid.T) Case {
 			target = rapid.IntRange(300, 3000).Draw(t, "target")
 		}
 		if extra := target - total; extra > 0 {
-			j := 2 * rapid.IntRange(0, nsites).Draw(t, "stretched_gap")
+			j := 2 * rapid.IntRange(0, (len(pieces)-1)/2).Draw(t, "stretched_gap")
 			pieces[j] += vk.Fill(rapid.Uint64().Draw(t, "stretch_fill"), extra, "ACGT")
 		}
 	}
